@@ -37,6 +37,7 @@ REQUIRED_THEOREMS = [
     "normalize_bridge", "fitIntoUnitCube_bridge", "translateToOrigin_bridge", "mergeBody_bridge", "mergeRun_bridge",
     "copy_bridge", "src_copy_switches", "fromArrays_bridge", "fromArrays_alias_free", "reorder_spec", "reorder_then_translate_isolated",
     # round 7: raw data / typed meshes / loaders / rings, and ALL translated producers at once
+    "instanciateRaw_shares", "prepareVertices_float3", "prepareVertices_all_new", "merge_drops_attributes",
     "rawInit_bridge", "instanciateRaw_bridge", "load_bridge", "ring_bridge", "newMesh_fresh", "producers_world", "src_translate_round_trip", "src_scale_round_trip", "src_rotate_round_trip", "src_normalize_bbox", "src_transforms_alias_free",
 ]
 TRUSTED = [
@@ -594,6 +595,15 @@ def _oracle_script(case):
                 if not any(f["key"] == key for f in out):
                     F(key, f"a mesh made by `{creator.get(i)}` shares its connectivity handler with another mesh / the handler points at another mesh",
                       f"step {step}: mesh #{i}: handler.mesh is own mesh = {bool(own)}, {shared} other mesh(es) hold the same handler object")
+        if k in ("copy", "copyx"):
+            # round 8 — "a copy equals its source": also the corner tables of the prepared mesh (element / owner of every corner)
+            src_, cp_ = meshes[op[1]], meshes[-1]
+            for cont in ("face_corners", "cell_corners", "cell_faces"):
+                if hasattr(src_, cont) and hasattr(cp_, cont):
+                    a_, b_ = getattr(src_, cont), getattr(cp_, cont)
+                    if [int(x) for x in a_._elem] != [int(x) for x in b_._elem] or [int(x) for x in a_._adj] != [int(x) for x in b_._adj]:
+                        F(f"C06/{k}/corner-table-differs/{cont}", f"the `{cont}` table of the copy is not the one of its source",
+                          f"step {step} op {op}: adj {list(b_._adj)[:12]} / elem {list(b_._elem)[:12]} expected adj {list(a_._adj)[:12]} / elem {list(a_._elem)[:12]}"); return out
         if k == "copyx":
             got = _conn_probe(meshes[-1])
             if got is not None:
@@ -1335,7 +1345,7 @@ SOURCE_MAP = {
     _V + "Vec.x": "modelled", _V + "Vec.y": "modelled", _V + "Vec.z": "modelled",   # components used by scale_xyz
     _R + "ring": "translated", _R + "flat_ring": "translated",      # vertex-store sites with provenance (the trigonometry is NOT modelled); ring_bridge, producers_world; old:      # producers: no vector object under two vertex ids
     _D + "__init__": "translated", _D + "id_vertices": "modelled",       # rawInit (re-wrap SHARES the containers); rawInit_bridge     # `range(len(vertices))`: MeshSrc.idVertices
-    _D + "_prepare_vertices": "oracle-only",                            # Vec(x) views of caller rows: the from_arrays / raw families
+    _D + "_prepare_vertices": "translated",     # prepareVertices (view / new array per vertex); prepareVertices_float3, prepareVertices_all_new (round 8); old:                            # Vec(x) views of caller rows: the from_arrays / raw families
 }
 SOURCE_MAP[_D + "_compute_dimensionality"] = "translated"          # rawDim; instanciateRaw_bridge
 for _n in ("from_complex", "random", "X", "Y", "Z", "xy", "norm", "dot", "outer", "normalize", "normalized"):
